@@ -21,7 +21,18 @@ impl Wake for Flag {
     }
 }
 
+/// What the simulated host wants after a `Pending`
+pub enum Next {
+    /// poll again only if a wake-up was requested (otherwise the future is stuck)
+    Default,
+    /// poll again regardless (the host itself changed something)
+    Poll,
+    /// drop the future (cancellation)
+    Cancel,
+}
+
 pub enum Outcome<T> {
+    Cancelled,
     Ready(T, u64),
     /// pending and no wake-up was requested: nothing can ever make progress
     Stuck(u64),
@@ -46,6 +57,39 @@ pub fn drive<F: Future>(fut: F, max_polls: u64, mut on_pending: impl FnMut(u64))
                 on_pending(polls);
                 if !flag.0.load(Ordering::SeqCst) {
                     return Outcome::Stuck(polls);
+                }
+                if polls >= max_polls {
+                    return Outcome::PollCap;
+                }
+            }
+        }
+    }
+}
+
+/// Like `drive` but the callback decides what happens after each `Pending`
+pub fn drive_with<F: Future>(fut: F, max_polls: u64, mut on_pending: impl FnMut(u64) -> Next) -> Outcome<F::Output> {
+    let flag = Arc::new(Flag(AtomicBool::new(false)));
+    let waker = Waker::from(flag.clone());
+    let mut cx = Context::from_waker(&waker);
+    let mut fut = Box::pin(fut);
+    let mut polls = 0;
+    loop {
+        polls += 1;
+        flag.0.store(false, Ordering::SeqCst);
+        match fut.as_mut().poll(&mut cx) {
+            Poll::Ready(v) => return Outcome::Ready(v, polls),
+            Poll::Pending => {
+                match on_pending(polls) {
+                    Next::Cancel => {
+                        drop(fut);
+                        return Outcome::Cancelled;
+                    }
+                    Next::Poll => {}
+                    Next::Default => {
+                        if !flag.0.load(Ordering::SeqCst) {
+                            return Outcome::Stuck(polls);
+                        }
+                    }
                 }
                 if polls >= max_polls {
                     return Outcome::PollCap;
